@@ -24,7 +24,7 @@ ASSUMPTIONS = ['order of variables/children is not compared', 'arguments echoed 
 FRAME_TYPES = ['single_frame', 'all_frame', 'no_frame']
 WATCHSETS = ['none', 'local', 'expr', 'failing']
 PATHSETS = ['root', 'include', 'exclude']
-PROGS = [p for p in progs.CORPUS if p not in ('hostile', 'threads')]
+PROGS = [p for p in progs.names() if p not in ('hostile', 'threads')]
 
 
 def bounds(tier):
